@@ -303,6 +303,15 @@ def render_header(model, where=None, guard="TYPES_H", blank=0):
     for t in sel:
         if t["kind"] != "opaque":
             out += _ns_wrap(t, render_typedef(model, t, cxx))
+    if where is None and model.get("priv_in_header"):
+        # the same-named TU-private types live in the header, one definition per translation unit selected by a macro the
+        # unit defines before including the header: "defined in the same source file", differently
+        for t in model["types"]:
+            w = t.get("where", "pub")
+            if w.startswith("tu"):
+                out.append("#ifdef IN_%s" % w.upper())
+                out += render_typedef(model, t, cxx)
+                out.append("#endif")
     out.append("#endif")
     return "\n".join(out) + "\n"
 
@@ -402,12 +411,14 @@ def render_variable(model, v, cxx):
 def render_tu(model, k, headers=("types.h",), order=None, blank=0, comments=False):
     cxx = model["lang"] == "cxx"
     out = []
+    if model.get("priv_in_header"):
+        out.append("#define IN_TU%d" % k)
     for h in headers:
         out.append('#include "%s"' % h)
     out += [""] * blank
     # TU-private types
     for t in model["types"]:
-        if t.get("where") == "tu%d" % k:
+        if t.get("where") == "tu%d" % k and not model.get("priv_in_header"):
             out += render_typedef(model, t, cxx)
     items = [("fn", f) for f in model["funcs"] if f["tu"] == k] + \
             [("var", v) for v in model["vars"] if v["tu"] == k] + \
